@@ -17,6 +17,7 @@ import (
 // machine is the state of one leaf: the registers (real + model) of a world.
 type machine struct {
 	w    *world
+	ev   *bgv.Evaluator // evaluator under test (the world's, or one obtained from it: obtainedScenario)
 	regs [nRegs]reg
 	scen *scenState
 	path string // instruction indices executed so far (memo key)
@@ -338,7 +339,7 @@ type callResult struct {
 func (m *machine) step(c *engine.Chooser, idx int, ins instr, last bool) bool {
 	w := m.w
 	t := w.t
-	ev := w.ev
+	ev := m.ev
 	m.path += fmt.Sprintf("%d.", idx)
 	a := &m.regs[ins.src]
 	class := ins.kind.String()
@@ -675,7 +676,7 @@ func (m *machine) stepMatchScales(c *engine.Chooser, ins instr, sigBase string, 
 	}
 	b := &m.regs[pi]
 	c.Note("   partner r%d: deg=%d level=%d scale=%d", pi, b.deg, b.level, b.scale)
-	_, pan := uni.Try(func() error { w.ev.MatchScalesAndLevel(a.ct, b.ct); return nil })
+	_, pan := uni.Try(func() error { m.ev.MatchScalesAndLevel(a.ct, b.ct); return nil })
 	if pan != nil {
 		m.fail(c, sigBase+"/panic", "%s panicked: %v", ins, pan)
 		return false
